@@ -25,7 +25,7 @@ STUBS = ['receivers are Interpreter subclasses whose queue() logs and defers to 
 ASSUMPTIONS = ['one fixed family of small sender/receiver charts', 'delays >= 0, exact reals; parameters unbounded integers']
 OUTSIDE = ['more than three interpreters / two callables', 'binding during a macro step other than by detach from a callable',
            'threads (C20)']
-DETACH = ['none', 'between_T2', 'between_first', 'during_later', 'during_self']
+DETACH = ['none', 'between_T2', 'between_first', 'during_later', 'during_self', 'during_later_rebind']
 
 
 def shards(level):
@@ -39,10 +39,13 @@ def canary_job():
 def charts(g):
     if 'c15' in g.cache:
         return g.cache['c15']
-    from sismic.model import Statechart, CompoundState, BasicState, Transition
+    from sismic.model import Statechart, CompoundState, BasicState, FinalState, Transition
     snd = Statechart('sender')
     snd.add_state(CompoundState('r', initial='A'), None)
     snd.add_state(BasicState('A', on_entry="send('hello', n=1)"), 'r')
+    snd.add_state(FinalState('F'), 'r')
+    snd.state_for('r').on_exit = "send('bye', n=2)"
+    snd.add_transition(Transition('A', 'F', event='end'))
     snd.add_transition(Transition('A', 'A', event='go', guard='G()', action='ACT(send, notify)'))
     snd.add_transition(Transition('A', None, event='hello', action="REC('S', event)"))
     snd.add_transition(Transition('A', None, event='msg', action="REC('S', event)"))
@@ -106,13 +109,18 @@ def harness(g, job, level, canary=False):
     def mk_callable(nm):
         def fn(e):
             deliveries.append((nm, e))
-            if nm == 'c1' and detach_mode == 'during_later' and not state['detached'] and e.name != 'hello':
+            if nm == 'c1' and detach_mode in ('during_later', 'during_later_rebind') and not state['detached'] \
+                    and e.name not in ('hello', 'bye'):
                 later = [x for x in order if order.index(x) > order.index('c1')]
                 if later:
                     S.detach(listeners[later[0]])
                     state['detached'] = later[0]
                     g.witness('detach_during_delivery')
-            if nm == 'c1' and detach_mode == 'during_self' and not state['detached'] and e.name != 'hello':
+                    if detach_mode == 'during_later_rebind':
+                        # a new target is bound in the same callback: the number of listeners is unchanged
+                        listeners['c3'] = S.bind(mk_callable('c3'))
+                        state['rebound'] = True
+            if nm == 'c1' and detach_mode == 'during_self' and not state['detached'] and e.name not in ('hello', 'bye'):
                 S.detach(listeners['c1'])
                 state['detached'] = 'c1'
                 g.witness('detach_during_delivery')
@@ -123,7 +131,7 @@ def harness(g, job, level, canary=False):
         order = order[::-1]
     if detach_mode.startswith('during') and 'c1' not in order:
         return
-    state = {'detached': None}
+    state = {'detached': None, 'rebound': False}
     for x in order:
         listeners[x] = S.bind(T[x] if x in T else mk_callable(x))
     if cycle and 'T1' in order:
@@ -169,7 +177,7 @@ def harness(g, job, level, canary=False):
         cur = list(active)
         for ei, e in enumerate(internal):
             for x in list(cur):
-                if detach_mode == 'during_later' and before_detached is None and state['detached'] == x:
+                if detach_mode in ('during_later', 'during_later_rebind') and before_detached is None and state['detached'] == x:
                     # detached by c1 while this very event was being propagated: nothing after the detach
                     if ei > 0 or cur.index(x) > cur.index('c1'):
                         continue
@@ -178,7 +186,15 @@ def harness(g, job, level, canary=False):
                 exp.append((x, e))
         if state['detached'] in active:
             active.remove(state['detached'])
-        got = [(w, e) for w, e in deliveries if w in ('T1', 'T2', 'c1', 'c2')]
+        if state['rebound'] and 'c3' not in active:
+            # bound while the first event of this step was being propagated: it is not served for that one
+            # (it was not bound when the event was sent); from the next event on it is served last
+            for ei, e in enumerate(internal):
+                if ei > 0:
+                    exp.append(('c3', e))
+            active.append('c3')
+            exp.sort(key=lambda we: [id(x) for x in internal].index(id(we[1])))
+        got = [(w, e) for w, e in deliveries if w in ('T1', 'T2', 'c1', 'c2', 'c3')]
         if canary:
             exp = exp[::-1]
         conds = [('delivered_once_in_order_to_bound_targets', [w for w, _ in got] == [w for w, _ in exp],
@@ -224,4 +240,18 @@ def harness(g, job, level, canary=False):
             g.prove(len(fw) == len([e for e in internal if e.name == 'msg']) and all(type(e) is Event for e in fw),
                     'cycle_delivers_forwarded_event_once', info)
             g.witness('cycle_delivery')
+    # the sender becomes final; its root exit code sends `bye` while the configuration is already empty
+    del deliveries[:]
+    S.queue('end')
+    st = S.execute_once()
+    bye = [e for e in st.sent_events if isinstance(e, InternalEvent) and e.name == 'bye']
+    gotb = [(w, e) for w, e in deliveries if e.name == 'bye']
+    g.prove(S.final and len(bye) == 1 and [w for w, _ in gotb] == list(active)
+            and all(type(e) is Event and dict(e.data) == {'n': 2} for _, e in gotb),
+            'event_sent_while_becoming_final_is_listed_and_delivered',
+            lambda: dict(info(), listed=[e.name for e in st.sent_events], delivered=[(w, e.name) for w, e in gotb]))
+    nxt = S.execute_once()
+    g.prove(nxt is not None and nxt.event is not None and nxt.event.name == 'bye' and isinstance(nxt.event, InternalEvent),
+            'sender_still_queues_its_own_copy_when_final',
+            lambda: dict(info(), next=None if nxt is None else repr(nxt.event)))
     g.sample({'order': order, 'cycle': cycle, 'detach': detach_mode, 'nsend': nsend})
